@@ -39,7 +39,7 @@ func TestMain(m *testing.M) {
 	vstat.Main(m)
 }
 
-var accountKinds = []string{"transfer", "transfer", "token", "call-forward", "call-revert", "call-issue", "create"}
+var accountKinds = []string{"transfer", "transfer", "token", "call-forward", "call-revert", "call-issue", "create", "prefund-create"}
 
 var dbNames = []string{"state", "block", "tx", "balance", "utxo", "utxoout", "utxotok", "status"}
 
